@@ -208,6 +208,19 @@ add('C18', 'fault_enumeration',
     'DESIGN.md 3 C18', 'Oracle ref/p2p.py (payload layouts from the protocol documentation; literal verack/ping frames).',
     'exhaustive single-fault enumeration on frames plus bounded exhaustive enumeration of messages and frame streams against a reference model')
 
+add('C19', 'model_checking',
+    'Explicit-state BFS over call/reply histories on a real Proxy with a scripted in-memory connection: events = 34 methods x 21 reply '
+    'kinds (result, 7 registered and 4 unregistered error codes, missing code, string/number error, error with result, missing '
+    'result, non-JSON, empty body, HTML 500, no HTTP response), depth 4 (6), dedup on (observed id, the proxy\'s real id counter, '
+    'outcome class, reply class); in every step exactly one request is issued, its id is strictly greater than every earlier one, '
+    'an error reply never yields a value and raises exactly the registered class (or the documented IndexError carrying the code). '
+    'Plus complete families: every satoshi 0..100,000 and ~1,000 boundary amounts (every fractional-digit pattern, d*10^k, 21e14-1) '
+    'in up to 5 textual forms (fixed, trimmed, integer, exponent) through 7 receiving fields and 2 sending methods (request body '
+    'parsed with Decimal); 36 hash pairs through every method that sends or returns a hash incl. 3 chained histories; '
+    'transactions/blocks/headers through every hex path bit-exactly.',
+    'DESIGN.md 3 C19', 'No network: Proxy(connection=...) with a scripted connection. State dedup is sound: the key contains the proxy\'s only mutable state.',
+    'explicit-state breadth-first search over call/reply histories with fault replies, plus bounded exhaustive value enumeration')
+
 NOT_YET = 'check not yet built in this revision of /verif (planned, see DESIGN.md section 3)'
 
 
